@@ -12,7 +12,7 @@ REPO = os.environ.get("REPO", "/repo")
 SPEC = os.path.join(VERIF, "spec")
 OUT = os.path.join(VERIF, "out")
 EVID = os.path.join(VERIF, "evidence")
-BUILD = os.path.join(VERIF, "build")
+BUILD = os.environ.get("VERIF_BUILD", os.path.join(VERIF, "build"))
 TLA_JAR = "/opt/veriftools/tla/tla2tools.jar"
 TLA_CP = TLA_JAR + ":/opt/veriftools/tla/CommunityModules-deps.jar"
 
